@@ -62,10 +62,12 @@ class Real:
             elif k == "main":
                 self.origins[o] = MainstreamOrigin(name=nm)
             elif k in ("ramp_in", "ramp_out"):
-                self.origins[o] = MeteredOnRamp(val(f"C.{o}"), flow_eq_type=k[5:], name=nm)
+                # (the strings are equal to the documented literals without being those objects: read from a file,
+                # lower-cased, joined ...)
+                self.origins[o] = MeteredOnRamp(val(f"C.{o}"), flow_eq_type=bytes(k[5:], "ascii").decode("ascii"), name=nm)
             else:
                 self.origins[o] = SimplifiedMeteredOnRamp(
-                    val(f"C.{o}"), flow_eq_type="limited" if k == "simp_lim" else "unlimited", name=nm)
+                    val(f"C.{o}"), flow_eq_type=bytes("limited" if k == "simp_lim" else "unlimited", "ascii").decode("ascii"), name=nm)
         self.dests = {}
         for d, k in list(net.dests.items()) + list(getattr(net, 'x_dests', {}).items()):
             nm = names.get(("d", d), f"D{d}")
